@@ -53,3 +53,23 @@ package canary
 //
 //@ func oneChar(q string, i int) (t *tok)
 //@   ensures exact: t != nil ==> val(t.Data) == sub(val(q), t.Pos, t.Pos + len(t.Data))
+//
+//@ specfun areaOf(Int) Int
+//@ axiom sq_area(q *sq): areaOf(q) == q.s * 3
+//@ axiom sq2_area(q *sq2): areaOf(q) == q.s * 3
+//@ iface (x shape) area() (r int)
+//@   requires x != nil
+//@   assigns nothing
+//@   ensures named: r == areaOf(x)
+//
+//@ func (q *sq) area() (r int) implements shape.area
+//@   ifaceassumed named
+//@   use sq_area(q)
+//@   requires q != nil
+//@   ensures twin: r == areaOf(q)
+//
+//@ func (q *sq2) area() (r int) implements shape.area
+//@   ifaceassumed named
+//@   use sq2_area(q)
+//@   requires q != nil
+//@   ensures twin: r == areaOf(q)
